@@ -11,7 +11,7 @@ use std::borrow::Cow;
 
 use crate::{
     ast::{self, support, AstNode, SyntaxNode},
-    NodeOrToken, TokenText,
+    NodeOrToken, TokenText, T,
 };
 
 use super::ForStmt;
@@ -202,16 +202,45 @@ impl ast::IfStmt {
         }
     }
 
+    // The child nodes that precede the `else` token (all of them if there is none), or
+    // those that follow it. The branches cannot be told apart by position among the children
+    // of one kind: a branch is either a block (an `Expr`) or a single statement (a `Stmt`).
+    fn child_nodes_split_at_else(&self, after_else: bool) -> Vec<SyntaxNode> {
+        let mut seen_else = false;
+        let mut nodes = Vec::new();
+        for child in self.syntax().children_with_tokens() {
+            match child {
+                NodeOrToken::Token(token) => {
+                    if token.kind() == T![else] {
+                        seen_else = true;
+                    }
+                }
+                NodeOrToken::Node(node) => {
+                    if seen_else == after_else {
+                        nodes.push(node);
+                    }
+                }
+            }
+        }
+        nodes
+    }
+
     pub fn then_branch_block(&self) -> Option<ast::BlockExpr> {
-        match support::children(self.syntax()).nth(1)? {
+        let mut exprs = self
+            .child_nodes_split_at_else(false)
+            .into_iter()
+            .filter_map(ast::Expr::cast);
+        match exprs.nth(1)? {
             ast::Expr::BlockExpr(block) => Some(block),
             _ => None,
         }
     }
 
-    // Hmm. Not sure why this is not `nth(1)`. (It is equivalent to `nth(0)`.)
+    // The first statement (that is not a block) before `else`.
     pub fn then_branch_stmt(&self) -> Option<ast::Stmt> {
-        support::child(&self.syntax)
+        self.child_nodes_split_at_else(false)
+            .into_iter()
+            .find_map(ast::Stmt::cast)
     }
 
     // This is the `if` body, corresponding to the condition evaluating true.
@@ -227,15 +256,14 @@ impl ast::IfStmt {
 
     // Return `Some` if the else branch is present and is a curly-delimited block.
     pub fn else_branch_block(&self) -> Option<ast::BlockExpr> {
-        match support::children(self.syntax()).nth(2)? {
-            ast::Expr::BlockExpr(block) => Some(block),
-            _ => None,
-        }
+        let first = self.child_nodes_split_at_else(true).into_iter().next()?;
+        ast::BlockExpr::cast(first)
     }
 
     // Return `Some` if the else branch is present and is a single statement.
     pub fn else_branch_stmt(&self) -> Option<ast::Stmt> {
-        support::child(&self.syntax)
+        let first = self.child_nodes_split_at_else(true).into_iter().next()?;
+        ast::Stmt::cast(first)
     }
 
     // This is the `else` body, corresponding to the condition evaluating false.
